@@ -276,13 +276,18 @@ api_harness!(span_of_no_trace, stub_ready, {
     kani::assert(nlog() == 0, "span_of_no_trace_sends_nothing: nothing sent");
 });
 
-// the same through the public constructor (heavier: iterator adapters over the parent array)
+// C16 (D14): a span derived from no parent at all, or only from no-op parents, belongs to no trace
+// and must itself be a no-op span: no clock, no closure invoked, nothing sent
 api_harness!(empty_parent_set, stub_ready, {
     let empty: [&Span; 0] = [];
     let s = Span::enter_with_parents("orphan", empty);
-    kani::assert(token_of(&s).is_empty(), "empty_parent_set_gives_empty_token: token is empty");
+    kani::assert(s.inner.is_none(), "span_without_a_trace_is_noop: enter_with_parents over an empty parent set gives a no-op span");
     kani::assert(SpanContext::from_span(&s).is_none(), "span_of_no_trace_has_no_context: from_span is None");
-    std::mem::forget(s);
+    kani::assert(s.elapsed().is_none(), "span_without_a_trace_is_noop: elapsed() is None");
+    let s = s.with_properties(|| { kani::assert(false, "closures_not_invoked_when_not_recording: with_properties on a span of no trace"); [("k", "v")] });
+    s.add_properties(|| { kani::assert(false, "closures_not_invoked_when_not_recording: add_properties on a span of no trace"); [("k", "v")] });
+    drop(s);
+    kani::assert(nlog() == 0, "span_of_no_trace_sends_nothing: nothing sent");
 });
 
 // ---- modular step: a loop model of Span::enter_with_parents (the real one is a filter_map /
@@ -300,6 +305,9 @@ pub fn model_enter_with_parents<'a>(name: impl Into<std::borrow::Cow<'static, st
                 i += 1;
             }
         }
+    }
+    if token.is_empty() {
+        return Span::noop();
     }
     Span::new(token, name, None)
 }
